@@ -4,6 +4,14 @@ package main
 // with its enclosing function and the kind of database handle the checked value was read from;
 // every mailbox / message insert call with whether the same function checks first; and the shape
 // of State.Create (one check of the bare count, then a loop creating the missing superiors).
+// For every Check* call also: which limits value it is called on (a configured `…imapLimits` field, a
+// limits.IMAP parameter, or something else) and which quantity its second argument is (the literal 1, the
+// length of a slice parameter of the function — the list that is then inserted —, or anything else =
+// "unknown"); every argument passed for a limits.IMAP parameter of a function of these packages (the shared
+// insertion helpers AddMessagesToMailbox / MoveMessagesFromMailbox, NewState, newUser …): a configured field,
+// a pass-through parameter, limits.DefaultLimits() or something else; and per Mailbox method the number of
+// write transactions it opens itself (a limit-checked multi-message operation is all-or-nothing because it is
+// ONE transaction that is rolled back on refusal).
 
 import (
 	"fmt"
@@ -102,22 +110,149 @@ func lfHandleKind(recv ast.Expr, stack []ast.Node) string {
 
 func factsLimits(c *factsCtx, outdir string) error {
 	type checkSite struct {
-		file, fn, method, ctx string
-		line                  int
-		args                  []string
-		pos                   token.Pos
-		lit                   ast.Node // innermost enclosing function literal / declaration
+		file, fn, method, ctx  string
+		line                   int
+		args                   []string
+		pos                    token.Pos
+		lit                    ast.Node // innermost enclosing function literal / declaration
+		limitsExpr, limitsKind string
+		quantity, quantityOf   string
 	}
+	type argSite struct {
+		file, fn, callee, arg, kind string
+		line                        int
+	}
+	type txShape struct {
+		file, fn      string
+		line          int
+		writes, reads int
+	}
+	var argSites []argSite
+	var txShapes []txShape
+	// functions of the scanned packages with a limits.IMAP parameter: name -> (index of that parameter, number of parameters)
+	type limParam struct{ idx, n int }
+	limFuncs := map[string][]limParam{}
+	scanDirs := []string{"internal/state", "internal/backend", "internal/session", "."}
+	for _, rel := range scanDirs {
+		for _, f := range c.parseDir(rel) {
+			for _, d := range f.Decls {
+				fd, ok := d.(*ast.FuncDecl)
+				if !ok || fd.Type.Params == nil {
+					continue
+				}
+				i := 0
+				idx := -1
+				for _, p := range fd.Type.Params.List {
+					k := len(p.Names)
+					if k == 0 {
+						k = 1
+					}
+					if types.ExprString(p.Type) == "limits.IMAP" && idx < 0 {
+						idx = i
+					}
+					i += k
+				}
+				if idx >= 0 {
+					limFuncs[f.Name.Name+"."+fd.Name.Name] = append(limFuncs[f.Name.Name+"."+fd.Name.Name], limParam{idx, i})
+				}
+			}
+		}
+	}
+	// classification of an expression that denotes a limits.IMAP value
+	limitsKindOf := func(e ast.Expr, stack []ast.Node) string {
+		switch x := e.(type) {
+		case *ast.SelectorExpr:
+			if x.Sel.Name == "imapLimits" {
+				return "configured"
+			}
+		case *ast.Ident:
+			if lfParamType(x.Name, stack) == "limits.IMAP" {
+				return "param"
+			}
+		case *ast.CallExpr:
+			if calleeName(x) == "DefaultLimits" {
+				return "default"
+			}
+		}
+		return "unknown"
+	}
+	for _, rel := range scanDirs {
+		for _, f := range c.parseDir(rel) {
+			for _, d := range f.Decls {
+				fd, ok := d.(*ast.FuncDecl)
+				if !ok || fd.Body == nil {
+					continue
+				}
+				fn := lfFuncDeclName(fd)
+				lfWalkStack(fd, func(n ast.Node, stack []ast.Node) {
+					call, ok := n.(*ast.CallExpr)
+					if !ok {
+						return
+					}
+					// package-qualified callee: `F(…)` inside the package, `pkg.F(…)` from outside
+					callee := ""
+					switch fun := call.Fun.(type) {
+					case *ast.Ident:
+						callee = f.Name.Name + "." + fun.Name
+					case *ast.SelectorExpr:
+						if x, ok := fun.X.(*ast.Ident); ok {
+							callee = x.Name + "." + fun.Sel.Name
+						}
+					}
+					for _, lp := range limFuncs[callee] {
+						if len(call.Args) != lp.n {
+							continue
+						}
+						file, line := c.pos(call.Pos())
+						a := call.Args[lp.idx]
+						argSites = append(argSites, argSite{file: file, line: line, fn: fn, callee: callee, arg: types.ExprString(a), kind: limitsKindOf(a, append(stack, n))})
+						break
+					}
+				})
+				if rel == "internal/state" && strings.HasPrefix(fn, "Mailbox.") {
+					ts := txShape{fn: fn}
+					ts.file, ts.line = c.pos(fd.Pos())
+					ast.Inspect(fd, func(n ast.Node) bool {
+						if call, ok := n.(*ast.CallExpr); ok {
+							switch calleeName(call) {
+							case "stateDBWrite", "stateDBWriteResult":
+								ts.writes++
+							case "stateDBRead", "stateDBReadResult":
+								ts.reads++
+							}
+						}
+						return true
+					})
+					if ts.writes > 0 {
+						txShapes = append(txShapes, ts)
+					}
+				}
+			}
+		}
+	}
+	sort.Slice(argSites, func(i, j int) bool {
+		if argSites[i].file != argSites[j].file {
+			return argSites[i].file < argSites[j].file
+		}
+		return argSites[i].line < argSites[j].line
+	})
+	sort.Slice(txShapes, func(i, j int) bool {
+		if txShapes[i].file != txShapes[j].file {
+			return txShapes[i].file < txShapes[j].file
+		}
+		return txShapes[i].line < txShapes[j].line
+	})
 	type insertSite struct {
 		file, fn, call, kind, handle string
 		line                         int
 		localCheck                   bool
+		what                         string // the last argument: the thing inserted
 	}
 	var checks []checkSite
 	var inserts []insertSite
 	create := struct {
-		found                                bool
-		checkCalls                           int
+		found                                   bool
+		checkCalls                              int
 		checkArgBare, createInLoop, checkInLoop string
 	}{checkArgBare: "unknown", createInLoop: "unknown", checkInLoop: "unknown"}
 
@@ -171,6 +306,24 @@ func factsLimits(c *factsCtx, outdir string) error {
 						s := checkSite{file: file, line: line, fn: fn, method: sel.Sel.Name, ctx: "unknown", pos: call.Pos()}
 						for _, a := range call.Args {
 							s.args = append(s.args, types.ExprString(a))
+						}
+						s.limitsExpr = types.ExprString(sel.X)
+						s.limitsKind = limitsKindOf(sel.X, append(stack, n))
+						s.quantity = "n/a"
+						if len(call.Args) == 2 {
+							s.quantity = "unknown"
+							switch q := call.Args[1].(type) {
+							case *ast.BasicLit:
+								if q.Kind == token.INT && q.Value == "1" {
+									s.quantity = "one"
+								}
+							case *ast.CallExpr:
+								if id, ok := q.Fun.(*ast.Ident); ok && id.Name == "len" && len(q.Args) == 1 {
+									if x, ok := q.Args[0].(*ast.Ident); ok && strings.HasPrefix(lfParamType(x.Name, append(stack, n)), "[]") {
+										s.quantity, s.quantityOf = "len-of-param", x.Name
+									}
+								}
+							}
 						}
 						for i := len(stack) - 1; i >= 0; i-- {
 							if _, ok := stack[i].(*ast.FuncLit); ok {
@@ -233,6 +386,9 @@ func factsLimits(c *factsCtx, outdir string) error {
 					}
 					file, line := c.pos(call.Pos())
 					is := insertSite{file: file, line: line, fn: fn, call: sel.Sel.Name, kind: kind, handle: h}
+					if len(call.Args) > 0 {
+						is.what = types.ExprString(call.Args[len(call.Args)-1])
+					}
 					for _, cs := range fnChecks {
 						if limitCheckMethods[cs.method] == kind && cs.pos < call.Pos() && cs.ctx != "read" && cs.ctx != "unknown" {
 							is.localCheck = true
@@ -322,7 +478,7 @@ func factsLimits(c *factsCtx, outdir string) error {
 
 	var b strings.Builder
 	b.WriteString("namespace Gluon.Facts\n\n")
-	b.WriteString("structure LimitCheckSite where\n  file : String\n  line : Nat\n  func : String\n  method : String\n  /-- handle the checked value was read from: \"tx\" (db.Transaction parameter), \"tx-field\" (transaction held in a struct),\n      \"read\" (db.ReadOnly parameter: a read transaction), \"none\" (not a database value), \"unknown\" -/\n  ctx : String\n  args : List String\nderiving DecidableEq, Repr\n\n")
+	b.WriteString("structure LimitCheckSite where\n  file : String\n  line : Nat\n  func : String\n  method : String\n  /-- handle the checked value was read from: \"tx\" (db.Transaction parameter), \"tx-field\" (transaction held in a struct),\n      \"read\" (db.ReadOnly parameter: a read transaction), \"none\" (not a database value), \"unknown\" -/\n  ctx : String\n  args : List String\n  /-- the limits value the check is called on, and its kind: \"configured\" (a field `….imapLimits`, set from gluon.WithIMAPLimits),\n      \"param\" (a limits.IMAP parameter of the function), \"default\" (limits.DefaultLimits()), \"unknown\" -/\n  limits : String\n  limitsKind : String\n  /-- the second argument (how many are about to be added): \"n/a\" (one-argument check), \"one\" (the literal 1),\n      \"len-of-param\" (`len(p)` of the slice parameter `quantityOf` of the function), \"unknown\" (anything else) -/\n  quantity : String\n  quantityOf : String\nderiving DecidableEq, Repr\n\n")
 	b.WriteString("/-- every `limits.IMAP.Check*` call in internal/state and internal/backend -/\ndef limitCheckSites : List LimitCheckSite := [\n")
 	for i, s := range checks {
 		sep := ","
@@ -333,24 +489,46 @@ func factsLimits(c *factsCtx, outdir string) error {
 		for _, a := range s.args {
 			as = append(as, leanStr(a))
 		}
-		fmt.Fprintf(&b, "  { file := %s, line := %d, func := %s, method := %s, ctx := %s, args := [%s] }%s\n",
-			leanStr(s.file), s.line, leanStr(s.fn), leanStr(s.method), leanStr(s.ctx), strings.Join(as, ", "), sep)
+		fmt.Fprintf(&b, "  { file := %s, line := %d, func := %s, method := %s, ctx := %s, args := [%s],\n    limits := %s, limitsKind := %s, quantity := %s, quantityOf := %s }%s\n",
+			leanStr(s.file), s.line, leanStr(s.fn), leanStr(s.method), leanStr(s.ctx), strings.Join(as, ", "),
+			leanStr(s.limitsExpr), leanStr(s.limitsKind), leanStr(s.quantity), leanStr(s.quantityOf), sep)
 	}
 	b.WriteString("]\n\n")
-	b.WriteString("structure LimitInsertSite where\n  file : String\n  line : Nat\n  func : String\n  call : String\n  kind : String\n  handle : String\n  /-- a Check* call of the same kind, on a value read from a write transaction, precedes it in the same function -/\n  localCheck : Bool\nderiving DecidableEq, Repr\n\n")
+	b.WriteString("structure LimitInsertSite where\n  file : String\n  line : Nat\n  func : String\n  call : String\n  kind : String\n  handle : String\n  /-- a Check* call of the same kind, on a value read from a write transaction, precedes it in the same function -/\n  localCheck : Bool\n  /-- the last argument of the call: what is inserted -/\n  what : String\nderiving DecidableEq, Repr\n\n")
 	b.WriteString("/-- every call on a transaction handle that adds a mailbox or adds messages to a mailbox -/\ndef limitInsertSites : List LimitInsertSite := [\n")
 	for i, s := range inserts {
 		sep := ","
 		if i == len(inserts)-1 {
 			sep = ""
 		}
-		fmt.Fprintf(&b, "  { file := %s, line := %d, func := %s, call := %s, kind := %s, handle := %s, localCheck := %v }%s\n",
-			leanStr(s.file), s.line, leanStr(s.fn), leanStr(s.call), leanStr(s.kind), leanStr(s.handle), s.localCheck, sep)
+		fmt.Fprintf(&b, "  { file := %s, line := %d, func := %s, call := %s, kind := %s, handle := %s, localCheck := %v, what := %s }%s\n",
+			leanStr(s.file), s.line, leanStr(s.fn), leanStr(s.call), leanStr(s.kind), leanStr(s.handle), s.localCheck, leanStr(s.what), sep)
 	}
 	b.WriteString("]\n\n")
 	b.WriteString("structure CreateShape where\n  found : Bool\n  checkCalls : Nat\n  /-- the checked value is the bare `GetMailboxCount()` result (nothing added for the mailboxes about to be created) -/\n  checkArgBare : Option Bool\n  /-- `actionCreateMailbox` is called in a loop (missing superiors + the named mailbox) -/\n  createInLoop : Option Bool\n  /-- the check is repeated inside that loop -/\n  checkInLoop : Option Bool\nderiving DecidableEq, Repr\n\n")
 	fmt.Fprintf(&b, "/-- shape of `State.Create` (internal/state/state.go) -/\ndef stateCreateShape : CreateShape :=\n  { found := %v, checkCalls := %d, checkArgBare := %s, createInLoop := %s, checkInLoop := %s }\n\n",
 		create.found, create.checkCalls, leanOptBool(create.checkArgBare), leanOptBool(create.createInLoop), leanOptBool(create.checkInLoop))
+	b.WriteString("structure LimitArgSite where\n  file : String\n  line : Nat\n  func : String\n  callee : String\n  arg : String\n  /-- \"configured\" (a field `….imapLimits`), \"param\" (passed through), \"default\" (limits.DefaultLimits()), \"unknown\" -/\n  kind : String\nderiving DecidableEq, Repr\n\n")
+	b.WriteString("/-- every argument passed for a `limits.IMAP` parameter of a function of internal/state, internal/backend,\n    internal/session and the root package -/\ndef limitArgSites : List LimitArgSite := [\n")
+	for i, s := range argSites {
+		sep := ","
+		if i == len(argSites)-1 {
+			sep = ""
+		}
+		fmt.Fprintf(&b, "  { file := %s, line := %d, func := %s, callee := %s, arg := %s, kind := %s }%s\n",
+			leanStr(s.file), s.line, leanStr(s.fn), leanStr(s.callee), leanStr(s.arg), leanStr(s.kind), sep)
+	}
+	b.WriteString("]\n\n")
+	b.WriteString("structure MailboxTxShape where\n  file : String\n  line : Nat\n  func : String\n  /-- `stateDBWrite` / `stateDBWriteResult` calls in the method's own body -/\n  writes : Nat\n  /-- `stateDBRead` / `stateDBReadResult` calls -/\n  reads : Nat\nderiving DecidableEq, Repr\n\n")
+	b.WriteString("/-- the `Mailbox` methods (internal/state) that open a write transaction -/\ndef mailboxTxShapes : List MailboxTxShape := [\n")
+	for i, s := range txShapes {
+		sep := ","
+		if i == len(txShapes)-1 {
+			sep = ""
+		}
+		fmt.Fprintf(&b, "  { file := %s, line := %d, func := %s, writes := %d, reads := %d }%s\n", leanStr(s.file), s.line, leanStr(s.fn), s.writes, s.reads, sep)
+	}
+	b.WriteString("]\n\n")
 	b.WriteString("end Gluon.Facts\n")
 	return writeLean(outdir, "Limits.lean", b.String())
 }
